@@ -108,7 +108,7 @@ Proof.
   assert (Hdy : m_dead y = false)
     by (destruct (m_dead y) eqn:E; auto; specialize (Ed eq_refl); congruence).
   destruct (Hall r y Hy Hdy) as [Hfin Hcnt].
-  assert (Hexp : PMon.expected_created x = (if m_bad y then 0 else m_num y))
+  assert (Hexp : PMon.expected_created x = ngood (m_bad y) (m_num y))
     by (unfold PMon.expected_created; rewrite Eb, En; reflexivity).
   rewrite Ek. destruct (m_kind y) eqn:Hky.
   - destruct (group_ids (obs_of s l en) (r_group x)) as [ids|] eqn:Hg; [|reflexivity].
